@@ -2,9 +2,10 @@
 (* Instance of Assembler with concrete constant sets + behaviour emission.   *)
 EXTENDS Assembler, Json
 
-CONSTANTS NKeys, ScalarKindsUsed, PrebuiltMode
+CONSTANTS NKeys, ScalarKindsUsed, PrebuiltMode, HintMode
 
 K(n) == <<n>>
+GenHints == IF HintMode = "zero" THEN {0} ELSE {-1, 0, 1, 7}   \* cfg files cannot hold negative numbers
 GenKeys == {K(n) : n \in 1..NKeys}
 GenScalars == {Scalar(kind, <<1>>) : kind \in ScalarKindsUsed}
 \* prebuilt nodes handed to AssignNode: a scalar, an empty map, a one-entry map, a list; each
@@ -16,6 +17,10 @@ GenPrebuilt ==
                     ListV(<<Scalar("int", <<2>>)>>)}
            impls == IF PrebuiltMode = "basic" THEN {"basic"} ELSE {"basic", "foreign", "bind"}
        IN {[v |-> v, impl |-> i] : v \in vals, i \in impls}
+          \cup (IF PrebuiltMode = "all+uint"
+                  THEN {[v |-> Scalar("int", <<100>>), impl |-> "basic"],
+                        [v |-> ListV(<<Scalar("int", <<101>>)>>), impl |-> "basic"]}
+                  ELSE {})
 
 Emit == Complete => PrintT(ToJson([steps |-> hist, results |-> results, pc |-> pc]))
 =============================================================================
